@@ -40,7 +40,28 @@ def applyOp (cfg : Cfg) (st : St) (slot : Nat) (data : List (BitVec 8)) : St × 
     | .err => (st, "err")
     | .panic _ => (st, "panic")
 
+/-- 64-byte digest of an output: byte `i` is xored into cell `(i + i/64) mod 64` (sensitive to which
+    block a byte came from); used by `applysum` for requests too long to print. -/
+def foldSum (out : List (BitVec 8)) : List (BitVec 8) :=
+  let rec go (l : List (BitVec 8)) (i : Nat) (acc : Array (BitVec 8)) : Array (BitVec 8) :=
+    match l with
+    | [] => acc
+    | b :: t => let k := (i + i / 64) % 64; go t (i + 1) (acc.set! k (acc[k]! ^^^ b))
+  (go out 0 (Array.replicate 64 0)).toList
+
 def step (cfg : Cfg) (st : St) : List String → St × String
+  | ["chacha", "applysum", slot, len] =>
+    match slot.toNat?, len.toNat? with
+    | some s, some n =>
+      match getSlot st.ciphers s with
+      | none => (st, "bad-op")
+      | some c =>
+        match Cipher.tryApply cfg.mach cfg.profile c (List.replicate n 0) with
+        | .ok (c', some out) => ({ st with ciphers := setSlot st.ciphers s c' }, hexOfBytes (foldSum out))
+        | .ok (c', none) => ({ st with ciphers := setSlot st.ciphers s c' }, "err")
+        | .err => (st, "err")
+        | .panic _ => (st, "panic")
+    | _, _ => (st, "bad-op")
   | ["chacha", "new", slot, vname, key, nonce] =>
     match slot.toNat?, variantOfName vname, bytesOfHex key, bytesOfHex nonce with
     | some s, some v, some k, some n =>
